@@ -57,8 +57,8 @@ func c17ChfJob(t *testing.T, raw json.RawMessage) (any, error) {
 				return
 			}
 			// the scripted peer
-			var answer reflect.Value  // what the peer answers with
-			var gotReq reflect.Value  // what the peer decoded from the last request
+			var answer reflect.Value // what the peer answers with
+			var gotReq reflect.Value // what the peer decoded from the last request
 			var reqErr string
 			mux := sm.New(&sm.Settings{OriginHost: "server", OriginRealm: "go-diameter", VendorID: 13, ProductName: "go-diameter", FirmwareRevision: 1})
 			mux.HandleFunc(cmdName, func(c diam.Conn, m *diam.Message) {
